@@ -1323,10 +1323,21 @@ def make_post_replay(q_sym: Any, p_sym: Any) -> Callable[[World, dict[str, Any],
             at_p = rep.rebuild_workflow_state(wid, as_of_sequence=p)
             ss = SnapshotStore(es)
             ss.create_workflow_snapshot({k: at_p[k] for k in ("status", "application", "name", "context", "stages", "tasks")}, wid, version=1, sequence=p)
-            with_snap = EventReplayer(es, ss).rebuild_workflow_state(wid)
+            rep2 = EventReplayer(es, ss)
+            with_snap = rep2.rebuild_workflow_state(wid)
             for fld in ("status", "stages", "tasks", "context"):
                 if with_snap[fld] != full[fld]:
                     return ("replay/snapshot_plus_tail_differs/%s" % fld, {"snapshot_at": p, "events": n})
+            # the same replayer / snapshot store asked again, for the prefix q and for the whole log:
+            # answers do not depend on what was rebuilt before
+            again_q = rep2.rebuild_workflow_state(wid, as_of_sequence=q)
+            for fld in ("status", "stages", "tasks", "context"):
+                if again_q[fld] != want[fld]:
+                    return ("replay/as_of_after_full_rebuild_differs/%s" % fld, {"snapshot_at": p, "as_of": q, "events": n})
+            again_full = rep2.rebuild_workflow_state(wid)
+            for fld in ("status", "stages", "tasks", "context"):
+                if again_full[fld] != full[fld]:
+                    return ("replay/second_full_rebuild_differs/%s" % fld, {"snapshot_at": p, "events": n})
         return None
 
     return post
